@@ -23,8 +23,8 @@ pub const ENTRY: Entry = Entry {
            single bits, their complements and byte patterns and all 33 fault choices. (c) ParallelInterface on 8- and 16-bit buses: \
            roots = WR/DC/data initial levels; actions = send_command / send_pixels / send_repeated_pixel over words {00,FF,2C,A5} \
            with equal consecutive words, N in 1..3, counts 0..4, optionally one failing data pin; invariant: words sampled at WR \
-           rising edges (with DC) == the expected sequence (a prefix of it if the call reported an error). (e) every history of 3 calls over reduced alphabets WITHOUT state merging (bus level with faults, interface \
-           level fault-free), as a guard against hidden state outside the key. (d) repeat counts whose \
+           rising edges (with DC) == the expected sequence (a prefix of it if the call reported an error). (e) every history of 3 calls (and of 4 calls of the form ok, any, any, ok at bus level) over reduced alphabets \
+           WITHOUT state merging (bus level with faults, interface level fault-free), as a guard against hidden state outside the key. (d) repeat counts whose \
            strobe count exceeds 2^32: the call must still be strobing when a 4096-operation budget runs out (quick), or produce \
            exactly count*N rising edges (thorough). Non-trivial = transitions on which an injected fault was consumed, or that \
            changed the cached value.",
@@ -516,6 +516,36 @@ fn run(ctx: &Ctx) -> Part {
                 .reduce(Acc::new, Acc::merge);
             acc.count(if wide { "bus16_depth3_histories" } else { "bus8_depth3_histories" }, a.evaluations);
             acc = acc.merge(a);
+            // length 4: a successful write, two arbitrary (possibly failing) writes, a successful write
+            let ok_actions: Vec<u32> = (0..values.len() as u32).collect();
+            let firsts4: Vec<(usize, u32)> = (0..sys.roots.len()).flat_map(|r| ok_actions.iter().map(move |a| (r, *a))).collect();
+            let a4 = firsts4
+                .par_iter()
+                .fold(Acc::new, |mut acc, &(r, a1)| {
+                    for &a2 in &actions {
+                        for &a3 in &actions {
+                            for &a4 in &ok_actions {
+                                acc.evaluations += 1;
+                                acc.transitions += 4;
+                                let hist = [a1, a2, a3, a4];
+                                let (_, bad) = sys.exec(r, &hist);
+                                if let Some(msg) = bad {
+                                    let (sig, text) = msg.split_once('|').unwrap_or(("c07", &msg));
+                                    acc.violation(Violation {
+                                        prop: ctx.prop.clone(),
+                                        sig: format!("{}-depth4/{sig}", if wide { "bus16" } else { "bus8" }),
+                                        msg: format!("{text} [history of 4 set_value calls]"),
+                                        case: json!({"kind": "c07", "variant": ctx.variant, "leg": "depth4-bus", "detail": {"initial_levels": sys.roots[r], "calls": hist.iter().map(|a| { let (v, f) = sys.decode(*a); json!({"set_value": v, "fault": f.map(|x| format!("{:?}", x))}) }).collect::<Vec<_>>()}}),
+                                    });
+                                }
+                            }
+                        }
+                    }
+                    acc
+                })
+                .reduce(Acc::new, Acc::merge);
+            acc.count(if wide { "bus16_depth4_histories" } else { "bus8_depth4_histories" }, a4.evaluations);
+            acc = acc.merge(a4);
         }
         // interface level, fault-free
         for wide in [false, true] {
